@@ -19,6 +19,7 @@ type zzEnt struct {
 }
 
 type zzKV struct {
+	snapshots, snapshotsClosed int
 	ents     []zzEnt
 	durable  []zzEnt
 	commits  int
@@ -133,7 +134,34 @@ func (m *zzKV) KeyIterator() (kvq.KeyIterator, error) { return &zzIter{ents: m.e
 func (m *zzKV) RangeScan(lo, hi string) (kvq.KeyValueIterator, error) {
 	return &zzIter{ents: zzRange(m.ents, lo, hi)}, nil
 }
-func (m *zzKV) Snapshot() (kvq.Snapshot, error) { return nil, nil }
+// Snapshot: like the real one, flush first, then a point-in-time copy of the whole store; one "file" per
+// entry (name = key, content = value, a single chunk each).
+func (m *zzKV) Snapshot() (kvq.Snapshot, error) {
+	_ = m.Flush()
+	m.snapshots++
+	return &zzSnapM{ents: append([]zzEnt(nil), m.ents...), m: m}, nil
+}
+
+type zzSnapM struct {
+	ents []zzEnt
+	pos  int
+	m    *zzKV
+}
+
+type zzSnapChunkM struct{ e zzEnt }
+
+func (c zzSnapChunkM) Name() string      { return c.e.k }
+func (c zzSnapChunkM) Index() int32      { return 0 }
+func (c zzSnapChunkM) TotalCount() int32 { return 1 }
+func (c zzSnapChunkM) Content() []byte   { return c.e.v }
+
+func (s *zzSnapM) Close() error     { s.m.snapshotsClosed++; return nil }
+func (s *zzSnapM) BasePath() string { return "" }
+func (s *zzSnapM) Valid() bool      { return s.pos < len(s.ents) }
+func (s *zzSnapM) Next() bool       { s.pos++; return s.Valid() }
+func (s *zzSnapM) Chunk() (kvq.SnapshotChunk, error) {
+	return zzSnapChunkM{s.ents[s.pos]}, nil
+}
 func (m *zzKV) Flush() error {
 	m.flushes++
 	m.durable = m.ents
@@ -249,23 +277,31 @@ func (it *zzIter) SeekLT(key string) bool {
 // ---- factory
 
 type zzFactory struct {
-	kv   *zzKV
-	snap []zzEnt // content installed by a completed snapshot load
+	kv         *zzKV
+	snap       []zzEnt // content installed by a completed snapshot load
+	fromChunks bool    // install what the chunks carried (zzKV.Snapshot's format) instead of `snap`
 }
 
 type zzLoader struct {
 	f        *zzFactory
 	chunks   int
 	complete bool
+	ents     []zzEnt
 }
 
 func (l *zzLoader) Close() error { return nil }
-func (l *zzLoader) AddChunk(string, int32, int32, []byte) error {
+func (l *zzLoader) AddChunk(name string, _ int32, _ int32, content []byte) error {
 	l.chunks++
+	l.ents = append(l.ents, zzEnt{name, content})
 	return nil
 }
 func (l *zzLoader) Complete() {
 	l.complete = true
+	if l.f.fromChunks {
+		l.f.kv.ents = l.ents
+		l.f.kv.durable = l.ents
+		return
+	}
 	l.f.kv.ents = l.f.snap
 	l.f.kv.durable = l.f.snap
 }
